@@ -1,8 +1,8 @@
 SPECIFICATION Spec
 CONSTANTS Links = {3}
-  MaxHbf = 1
+  MaxHbf = 2
   MaxPages = 2
-  MaxWords = 5
+  MaxWords = 3
   Df = 2
   Ver = 7
   Running = TRUE
